@@ -6,7 +6,7 @@ import (
 	"os"
 
 	"verif/harness/eng"
-	_ "verif/harness/props"
+	"verif/harness/props"
 )
 
 func usage() int {
@@ -27,6 +27,25 @@ func main() {
 			os.Exit(usage())
 		}
 		os.Exit(eng.ReplayMain(a[1]))
+	case "debugwf":
+		var seed uint64 = 1
+		n, show := 200, -1
+		dir := ""
+		if len(a) > 1 {
+			fmt.Sscan(a[1], &seed)
+		}
+		if len(a) > 2 {
+			fmt.Sscan(a[2], &n)
+		}
+		if len(a) > 3 {
+			fmt.Sscan(a[3], &show)
+		}
+		if len(a) > 4 {
+			dir = a[4]
+		}
+		props.DebugWF(seed, n, show, dir)
+	case "render":
+		props.DebugRender(a[1], a[2])
 	case "list":
 		for _, id := range eng.IDs() {
 			fmt.Println(id)
